@@ -635,6 +635,15 @@ pub fn c06(tier: Tier) -> i32 {
 /// The sequential half of C11: no history makes a handler or the chain loop panic.
 pub fn c11_sequential(run: &Run, tier: Tier, budget_s: u64) {
     let mut models = c01_models(tier, vec!["C11"]);
+    if tier == Tier::Quick {
+        // C01 and C02 run these models to their full depth with the same panic detectors; here one level
+        // less, so that the lifecycle family and the schedules fit in the quick budget
+        for (_, d) in models.iter_mut() {
+            if *d > 2 {
+                *d -= 1;
+            }
+        }
+    }
     let add = |u, k, b| Ev::Add { user: u, disp: k, blob: b, tsd: 42 };
     let mine = |txs: Vec<TxName>| Ev::MineP(MineSel::Txs(txs));
     // resubmission of an appointment in every lifecycle state
